@@ -198,6 +198,11 @@ def run(ctx):
     nS = ctx.n(80, 800)
     for k in range(nS):
         pattern, desc = cl.rand_pattern(rng, cmax=5)
+        if desc['kind'] == 'UserTemplate' and rng.integers(0, 2):
+            # the optional search size left out: its default must not prefer one axis of a non-square template
+            desc = dict(desc, search=None)
+            pattern = cl.pattern_from_desc(desc)
+            ctx.hist('user template with default search', 'x'.join(str(v) for v in np.array(desc['template']).shape))
         c = pattern.get_crop_size()
         fy, fx = int(rng.integers(2 * c + 6, 64)), int(rng.integers(2 * c + 6, 64))
         ints, kind = cl.rand_frame(rng, fy, fx, str(rng.choice(['noise', 'blobs', 'structured'])))
